@@ -2,7 +2,7 @@
    (to_absolute_note, correct_chord_octave), C10 (decompose_duration), C14 (to_scale_note / to_standard_note
    go through Chord.parse).  The other re-notations are evaluated on the implementation by the oracle. *)
 From ML Require Import Model.Types gen.Tables Model.Pitch Model.Rel Model.Ton Model.Render Model.Slice Model.Renote.
-From ML Require Import Spec.PitchSpec Spec.RenderSpec Proofs.PitchProofs Proofs.RenderProofs Proofs.RenoteProofs.
+From ML Require Import Spec.PitchSpec Spec.RenderSpec Proofs.PitchProofs Proofs.RenderProofs Proofs.RenoteProofs Proofs.RenoteScore.
 Open Scope Z_scope.
 
 (* to_absolute_note: along the timeline of a part (relative notes have an earlier pitched note since the part was
@@ -13,6 +13,18 @@ Theorem C11_to_absolute : forall l last ref l' sl,
   abs_items last l = Some l' -> sounding ref l = Some sl ->
   forall ref2, sounding ref2 l' = Some sl.
 Proof. exact abs_items_sounding. Qed.
+
+(* Score.to_absolute_note on a whole score: the dictionary of last pitches threaded through the chords is, seen from one part,
+   the single reference of the timeline theorem; so the re-notated score sounds like the original, part by part
+   (part names unique inside a chord: they are dictionary keys) *)
+Theorem C11_score_to_absolute_view : forall tr s d s' t, score_to_absolute_from s d = Some s' ->
+  Forall (fun c => NoDup (map fst (rparts c))) s -> abs_items (zolook tr d) (items s tr t) = Some (items s' tr t).
+Proof. exact score_to_absolute_items. Qed.
+
+Theorem C11_score_to_absolute_sounding : forall s s' tr sl, score_to_absolute s = Some s' ->
+  Forall (fun c => NoDup (map fst (rparts c))) s -> renotable false (items s tr 0) ->
+  sounding_of s tr = Some sl -> sounding_of s' tr = Some sl.
+Proof. exact score_to_absolute_sounding. Qed.
 
 (* an absolute note reads back as the pitch it was built from, in any chord *)
 Theorem C11_absolute_note_pitch : forall c p last, elem_ok c -> pitch_full c (abs_pnote p) last = Some (Some p).
